@@ -1,6 +1,6 @@
 (* C19 — invariants of Model/Ingest.v over all schedules (lists of atomic steps), all producer counts,
    all configurations. *)
-From Coq Require Import List Arith Bool PeanoNat Lia Permutation.
+From Coq Require Import List Arith Bool PeanoNat Lia Permutation ZArith.
 From SV Require Import Model.Ingest Spec.IngestSpec.
 Import ListNotations.
 
@@ -262,6 +262,54 @@ Proof.
   induction l as [|a l IH]; simpl; intros s s0 H.
   - inversion H; auto.
   - destruct (ig_step c s0 a) eqn:E; try discriminate. rewrite (IH _ _ H). eapply ig_block_step; eauto.
+Qed.
+
+(* the configuration boundary: strategy "block" runs the timer-free program exactly for BlockTimeout <= 0 *)
+Lemma ig_strat_of_block t : ig_strat_of IgNBlock t = IgBlock <-> (t <= 0)%Z.
+Proof.
+  unfold ig_strat_of. destruct (t <=? 0)%Z eqn:E.
+  - apply Z.leb_le in E. tauto.
+  - apply Z.leb_gt in E. split; [discriminate|lia].
+Qed.
+
+Lemma ig_strat_of_block_pos t : ig_strat_of IgNBlock t = IgBlockTO <-> (0 < t)%Z.
+Proof.
+  unfold ig_strat_of. destruct (t <=? 0)%Z eqn:E.
+  - apply Z.leb_le in E. split; [discriminate|lia].
+  - apply Z.leb_gt in E. tauto.
+Qed.
+
+Theorem ig_block_nonpositive_timeout_never_drops c n l s t :
+  (t <= 0)%Z -> ig_strat c = ig_strat_of IgNBlock t -> ig_run c (ig_init c n) l = Some s -> ig_dropped s = 0.
+Proof.
+  intros T B. apply ig_block_never_drops. rewrite B. apply ig_strat_of_block; exact T.
+Qed.
+
+(* ... and only there: with any positive timeout a full buffer and a parked consumer let the timer win *)
+Definition ig_bto_cfg (t : Z) : igcfg :=
+  {| ig_strat := ig_strat_of IgNBlock t; ig_cap0 := 1; ig_max := 0; ig_mininc := 1; ig_gnum := 3; ig_gden := 2;
+     ig_tnum := 4; ig_tden := 5; ig_locked_recv := true |}.
+Definition ig_bto_schedule : list igstep := [IgEm 0; IgGr 0; IgCs 0; IgEm 0; IgGr 0; IgTo 0].
+
+Theorem ig_block_positive_timeout_may_drop t :
+  (0 < t)%Z ->
+  exists s, ig_run (ig_bto_cfg t) (ig_init (ig_bto_cfg t) 1) ig_bto_schedule = Some s /\
+            ig_dropped s = 1 /\ ig_emitted s = 2.
+Proof.
+  intros T. apply ig_strat_of_block_pos in T.
+  unfold ig_bto_cfg. rewrite T. eexists; split; [vm_compute; reflexivity|]. split; reflexivity.
+Qed.
+
+(* the same schedule is not executable without a timeout: the second sender stays blocked *)
+Theorem ig_block_nonpositive_timeout_blocks t :
+  (t <= 0)%Z ->
+  ig_run (ig_bto_cfg t) (ig_init (ig_bto_cfg t) 1) ig_bto_schedule = None /\
+  exists s, ig_run (ig_bto_cfg t) (ig_init (ig_bto_cfg t) 1) (firstn 5 ig_bto_schedule) = Some s /\
+            ig_step (ig_bto_cfg t) s (IgTo 0) = None /\ ig_step (ig_bto_cfg t) s (IgCs 0) = None.
+Proof.
+  intros T. apply ig_strat_of_block in T.
+  unfold ig_bto_cfg. rewrite T. split; [vm_compute; reflexivity|].
+  eexists; split; [vm_compute; reflexivity|]. split; vm_compute; reflexivity.
 Qed.
 
 (* ------------------------------------------------------------------ capacity ceiling *)
